@@ -246,19 +246,23 @@ func runC07(c *Ctx) {
 			}
 			// (a callee that streams progressive results can have several YIELDs held back one
 			// after the other, each for up to the retry period: the caller reads a little, stops again)
-			m := 0
-			for _, ty := range heldYields {
-				if ty <= at && ty >= o.T-retryPeriod {
-					m++
+			// The handler may have been busy from some held-back YIELD on, for up to the retry
+			// period per YIELD handed over since (over a network transport a message counts as
+			// handed over when the client's transport has taken it, long before the handler does).
+			for _, tj := range heldYields {
+				if tj > at {
+					continue
 				}
-			}
-			if m > 0 && at-o.T <= time.Duration(m)*retryPeriod {
-				instant = false // possibly queued behind held-back YIELDs
-				c.Probe("request_behind_held_yield")
-			}
-			for _, ty := range heldYields {
-				if ty <= at && at-ty <= retryPeriod {
-					instant = false
+				cnt := 0
+				for _, ti := range heldYields {
+					if ti >= tj && ti <= at {
+						cnt++
+					}
+				}
+				if at-tj <= time.Duration(cnt)*retryPeriod {
+					instant = false // possibly queued behind held-back YIELDs
+					c.Probe("request_behind_held_yield")
+					break
 				}
 			}
 			if instant && at-o.T > 0 {
